@@ -14,7 +14,8 @@ for d in sorted(Path("/verif/seeded").iterdir()):
         others = [r for r in meta.get("runs", []) if r["check"] != meta["property"] and r["caught"]]
         if own and own[-1]["caught"]:
             first = next((l for l in own[-1]["first_lines"] if not l.startswith(("VIOLATION", "KNOWN"))), "")
-            out = "caught: `" + first.strip().split(":")[0].split("{")[0].strip() + "`"
+            tag = first.strip().split(":")[0].split("{")[0].strip()
+            out = "caught: `" + tag + "`" if tag and " " not in tag else "caught"
         elif own:
             out = "MISSED by its own quick check"
         else:
